@@ -21,6 +21,7 @@ type Env struct {
 	atBlock *ssa.BasicBlock
 	depth   int
 	lits    map[string]string // macro parameters bound to string literals (type names)
+	resAlias map[string]string // callee result names renamed since the contract was written
 }
 
 func (env *Env) with(st *State) *Env {
@@ -131,8 +132,13 @@ func (x *Exec) evalIdent(name string, env *Env) Val {
 	if v, ok := env.binders[name]; ok {
 		return v
 	}
+	if a, ok := x.alias[name]; ok && !env.closed {
+		// the variable was renamed since the contract was written (hints.go)
+		x.enc.note("%s: contract name %q re-bound to renamed variable %q", x.name, name, a)
+		name = a
+	}
 	for i, rn := range env.resNames {
-		if rn == name && i < len(env.results) {
+		if (rn == name || (rn != "" && rn == env.resAlias[name])) && i < len(env.results) {
 			return env.results[i]
 		}
 	}
